@@ -102,12 +102,20 @@ class ModelEmitter(object):
         return self
 
     def emit(self, name, *args):
-        for r in list(self.e.get(name, [])):
-            if r['once']:
-                if r['fired']:
-                    continue
+        # a once-listener is called on the FIRST emit that finds it subscribed, with that emit's arguments: the emit takes its
+        # once-listeners off the list before it delivers anything, so that an emit of the same name from inside an earlier
+        # listener does not deliver them as well - or instead (an earlier version of this model consumed a once-listener when it
+        # was called, as the implementation did: the nested emit then called it with ITS arguments and the first emit not at all)
+        snap = list(self.e.get(name, []))
+        mine = set()
+        for r in snap:
+            if r['once'] and not r['fired']:
                 r['fired'] = True
+                mine.add(id(r))
                 self.e[name] = [x for x in self.e.get(name, []) if x is not r]
+        for r in snap:
+            if r['once'] and id(r) not in mine:
+                continue
             r['cb'](*args, **r['ctx'])
         return self
 
